@@ -79,7 +79,6 @@ CLAIMED = {
                 "the stub's frame assumption (renaming never writes the stop flag) is re-checked by a source scan on every run.",
         'note': 'Assumed, not checked: the engine reads no other cross-query state and reads these two only through count_rules / next_id; start_query_timer (thread) is read, not proved. Trusted: Kani 0.68 / CBMC 6.11, stubs for fmt::format and RandomState::new.',
         'technique': 'Kani harnesses (complete BMC) with function stubbing on the real crate',
-        'category': 'model_checking',
         'engine': 'kani-harnesses',
         'design_ref': 'DESIGN.md 5/C22',
     },
